@@ -278,7 +278,16 @@ def fieldfit(ctx):
     _expect(ctx, "R25.field-fit", c, ["fieldfit_bad"], ["fieldfit_good"])
 
 
-ALL = {"fieldfit": fieldfit, "stalefield": stalefield, "hidden": hidden, "region_args": region_args, "widen": widen, "progress": progress, "lazyinit": lazyinit, "lanes": lanes, "atomic": atomic, "feasible": feasible, "endian": endian, "units": units, "alloc": alloc, "status": status, "ownership": ownership, "cursor": cursor, "arrays": arrays,
+def reqalloc(ctx):
+    from .rules import reqalloc as ra
+    P = program()
+    c = _sub()
+    n = ra.check(c, [P.fn("request_bad"), P.fn("request_good")])
+    ctx.control("R32.request-fits finds the control calls", n == 2, str(n))
+    _expect(ctx, "R32.request-fits", c, ["request_bad"], ["request_good"])
+
+
+ALL = {"reqalloc": reqalloc, "fieldfit": fieldfit, "stalefield": stalefield, "hidden": hidden, "region_args": region_args, "widen": widen, "progress": progress, "lazyinit": lazyinit, "lanes": lanes, "atomic": atomic, "feasible": feasible, "endian": endian, "units": units, "alloc": alloc, "status": status, "ownership": ownership, "cursor": cursor, "arrays": arrays,
        "recursion": recursion, "narrowing": narrowing, "skeleton": skeleton, "must_pass": must_pass}
 
 
